@@ -101,8 +101,12 @@ class StaticTrace(Generic[R], Trace[R]):
         })
 
     def get_score(self) -> Score:
+        # Sub-scores may have different shapes when this is a stacked trace (e.g. a subtrace
+        # taken from under a vmap or scan) that holds both distribution and nested traces.
         return jnp.sum(
-            jnp.array([tr.get_score() for tr in self.subtraces.values()], copy=False),
+            jnp.array(
+                [jnp.sum(tr.get_score()) for tr in self.subtraces.values()], copy=False
+            ),
         )
 
     def get_inner_trace(self, address: Address):
